@@ -36,12 +36,21 @@ def cases_for(rng, tier):
         cfgs = configurations(name)
         if tier == 'quick':
             cfgs = [cfgs[0]] + rng.sample(cfgs[1:], min(len(cfgs) - 1, 3))
+        # image kinds: the one the class needs, else the documented dtypes (a branch that draws may exist for one
+        # dtype only) -- one at random in the quick tier, all of them otherwise
+        if 'image' in spec:
+            kinds = [spec['image']]
+        else:
+            from search.C08 import documented_dtypes
+            doc = documented_dtypes(name)
+            kinds = [k for k, d in (('uint8', 'uint8'), ('float', 'float32'), ('int16', 'int16')) if d in doc] or ['uint8']
         for kw in cfgs:
-            case = {'name': name, 'pipeline': [leaf(name, kw)], 'shape': [12, 10, 8], 'seed': rng.randint(0, 10 ** 6),
-                    'data_seed': rng.randint(0, 10 ** 5), 'image': spec.get('image', 'uint8'), 'extra': {}}
-            if 'cropping_bbox' in spec.get('needs', []):
-                case['extra'][kw.get('cropping_box_key', 'cropping_bbox')] = [2, 2, 1, 8, 9, 6]
-            cases.append(case)
+            for kind in ([rng.choice(kinds)] if tier == 'quick' else kinds):
+                case = {'name': name, 'pipeline': [leaf(name, kw)], 'shape': [12, 10, 8], 'seed': rng.randint(0, 10 ** 6),
+                        'data_seed': rng.randint(0, 10 ** 5), 'image': kind, 'extra': {}}
+                if 'cropping_bbox' in spec.get('needs', []):
+                    case['extra'][kw.get('cropping_box_key', 'cropping_bbox')] = [2, 2, 1, 8, 9, 6]
+                cases.append(case)
     # operators
     flips = [leaf('HorizontalFlip', {}), leaf('VerticalFlip', {}), leaf('Transpose', {}),
              leaf('RandomRotate90', {'axes': ['xy', 'yz', 'xz']})]
